@@ -19,7 +19,7 @@ from vmon.libutil import monitored
 
 LEVEL = "exploration"
 SHARDS = {"quick": 16, "thorough": 16}
-MUST = ["accessor.cursor_moved_first", "accessor.order0", "accessor.order1", "accessor.order2", "create.contract_evaluations", "accessor.checks", "reframe.checks", "reframe.socket", "reframe.file-chunked", "reframe.file-short-reads", "reframe.bytes-prefixed", "reframe.twice", "reframe.beyond_20MB", "reframe.train", "reframe.train/bytesio-written", "reframe.train/file-read-size-on-packet-border", "reframe.train/socket-two-packets-per-delivery", "reframe.train/cut-in-last-packet", "reframe.train/datagram-socket", "reframe.train/two-generators-requested-up-front", "reframe.train/equal-prefixed-records", "reframe.train/socket-two-packets-per-delivery/show_progress", "reject.checks", "word1.values", "word2.values"]
+MUST = ["accessor.cursor_moved_first", "accessor.order0", "accessor.order1", "accessor.order2", "create.contract_evaluations", "accessor.checks", "reframe.checks", "reframe.socket", "reframe.file-chunked", "reframe.file-short-reads", "reframe.bytes-prefixed", "reframe.twice", "reframe.beyond_20MB", "reframe.train", "reframe.train/bytesio-written", "reframe.train/file-read-size-on-packet-border", "reframe.train/socket-two-packets-per-delivery", "reframe.train/cut-in-last-packet", "reframe.equal_records_grid", "reframe.train/datagram-socket", "reframe.train/two-generators-requested-up-front", "reframe.train/equal-prefixed-records", "reframe.train/socket-two-packets-per-delivery/show_progress", "reject.checks", "word1.values", "word2.values"]
 RULE = ("create_ccsds_packet is called on enumerated field values; a postcondition compares the bytes with the "
         "model's bit-string layout (3+1+1+11+2+14+16 bits, length field = len(data)-1) and the harness compares "
         "every accessor, re-frames the packet through ccsds_generator (bytes, BytesIO, and in rotation: chunked file reads, short reads, a "
@@ -400,6 +400,21 @@ def run(ctx):
                               f"(first difference at packet {i}); exc {s.exc!r}", {"source": kind, "first_difference": i, "yielded": len(out)})
         del stream, made
         ctx.sig("reframe", "beyond-20MB")
+    # ---- N equal prefixed records from sources of known length: every (packet length, prefix length, N) of a small grid ---------
+    if ctx.shard == 2 % ctx.nshards:
+        for plen in (7, 8, 9, 12, 16):
+            pkt = bytes(packets.create_ccsds_packet(bytes(range(1, plen - 5)), apid=plen, sequence_count=plen))
+            for k2 in range(0, 13):
+                for N in range(1, 11):
+                    recs = (bytes([0xEE]) * k2 + pkt) * N
+                    for kind, src in (("bytes", recs), ("bytesio", io_mod.BytesIO(recs))):
+                        got = [bytes(x) for x in itertools.islice(packets.ccsds_generator(src, skip_header_bytes=k2), N + 2)]
+                        ctx.count("evaluations")
+                        ctx.count("reframe.equal_records_grid")
+                        if got != [pkt] * N:
+                            ctx.violation(f"reframe/equal-prefixed-records/{kind}", f"{N} records of {k2}+{plen} bytes re-framed as {len(got)} packets",
+                                          {"packet_length": plen, "prefix": k2, "records": N, "source": kind})
+        ctx.exhaustive_space("equal prefixed records: packet lengths {7,8,9,12,16} x prefixes 0..12 x 1..10 records x {bytes, BytesIO}", 1)
     # ---- rejection ---------------------------------------------------------------------------------------
     if ctx.mine(0) or True:
         for name, w in FIELDS:
